@@ -638,6 +638,13 @@ func cmdRun(prop string, args []string) int {
 		workers, _ = strconv.Atoi(v)
 	}
 	perJob := 20 * time.Minute
+	if tier == "quick" {
+		perJob = 6 * time.Minute // a quick chunk takes well under a minute; a worker that is still busy after six is stuck
+	}
+	if v, err := strconv.Atoi(os.Getenv("VERIF_WATCHDOG_MINUTES")); err == nil && v > 0 {
+		perJob = time.Duration(v) * time.Minute
+	}
+	failedJob := map[string]bool{}
 	jc := make(chan job)
 	var wg sync.WaitGroup
 	var mu sync.Mutex
@@ -650,6 +657,7 @@ func cmdRun(prop string, args []string) int {
 				if err := runJob(b, prop, seed, tier, j, perJob); err != nil {
 					mu.Lock()
 					jobErrs = append(jobErrs, err.Error())
+					failedJob[j.Out] = true
 					mu.Unlock()
 				}
 			}
@@ -660,17 +668,16 @@ func cmdRun(prop string, args []string) int {
 	}
 	close(jc)
 	wg.Wait()
-	if len(jobErrs) > 0 {
-		fmt.Println("HARNESS: worker trouble (exit 2):")
-		for _, e := range jobErrs {
-			fmt.Println(e)
-		}
-		return 2
-	}
+	// (a worker that hangs or dies is trouble of the harness - unless the tree under test makes it hang, e.g. a scanner that
+	// spins for ever in a free-running leg, and then the same tree usually fails an oracle in the other leg in a way that replays:
+	// decided at the end, like the other harness verdicts)
 
 	// collect
 	var main, det, race []runResult
 	for _, j := range jobs {
+		if failedJob[j.Out] {
+			continue
+		}
 		rs, err := readResults(j.Out)
 		if err != nil {
 			die(2, "results %s: %v", j.Out, err)
@@ -717,10 +724,17 @@ func cmdRun(prop string, args []string) int {
 	for i := range main {
 		byIdx[main[i].Index] = &main[i]
 	}
+	// harness: the simulator itself misbehaved (nondeterminism, a run it could not drive): fatal, exit 2 at once.
+	// inconclusive: a world could not read what the program printed (HARNESS-parse, -exit, -rows): fatal only if no genuine
+	// violation replays - a tree that garbles its output usually breaks an oracle that can read it as well, and that one counts.
 	harness := []string{}
+	inconclusive := []string{}
+	worldLevel := func(class string) bool {
+		return strings.HasSuffix(class, "HARNESS-parse") || strings.HasSuffix(class, "HARNESS-exit") || strings.HasSuffix(class, "HARNESS-rows")
+	}
 	for _, d := range det {
 		for _, v := range d.Viol {
-			if strings.HasPrefix(v.Class, "HARNESS-") {
+			if strings.HasPrefix(v.Class, "HARNESS-") && !worldLevel(v.Class) {
 				harness = append(harness, fmt.Sprintf("index %d: %s: %s", d.Index, v.Class, v.Msg))
 			}
 		}
@@ -732,20 +746,17 @@ func cmdRun(prop string, args []string) int {
 	for _, r := range append(append([]runResult{}, main...), race...) {
 		for _, v := range r.Viol {
 			if strings.Contains(v.Class, "HARNESS-") {
-				harness = append(harness, fmt.Sprintf("index %d: %s: %s", r.Index, v.Class, v.Msg))
+				if worldLevel(v.Class) {
+					inconclusive = append(inconclusive, fmt.Sprintf("index %d: %s: %s", r.Index, v.Class, clip(v.Msg, 300)))
+				} else {
+					harness = append(harness, fmt.Sprintf("index %d: %s: %s", r.Index, v.Class, v.Msg))
+				}
 			}
 		}
 	}
-	if len(harness) > 0 {
-		fmt.Println("HARNESS: the simulator itself misbehaved (exit 2, nothing reported is to be believed):")
-		for i, h := range harness {
-			if i > 10 {
-				break
-			}
-			fmt.Println(" ", h)
-		}
-		return 2
-	}
+	// (decided below: a tree with a data race can make a run differ between two executions of one schedule - goroutines
+	// that wake at the same fake instant run in parallel until their next yield - and the same tree then usually breaks an
+	// oracle in a way that replays; only when nothing genuine replays is this the harness's own trouble)
 
 	// violations by class
 	known := loadKnown()
@@ -759,6 +770,9 @@ func cmdRun(prop string, args []string) int {
 	for i := range all {
 		r := &all[i]
 		for _, v := range r.Viol {
+			if strings.Contains(v.Class, "HARNESS-") {
+				continue // world-level, handled below
+			}
 			countByClass[v.Class]++
 			if _, ok := firstByClass[v.Class]; !ok {
 				firstByClass[v.Class] = hit{r, v}
@@ -890,6 +904,42 @@ func cmdRun(prop string, args []string) int {
 		fmt.Printf("HARNESS-NOTE: classes %v were seen but did not replay; the VIOLATION lines below are for classes that did\n", noRepro)
 	}
 
+	if len(jobErrs) > 0 {
+		if exit != 1 {
+			fmt.Println("HARNESS: worker trouble (exit 2):")
+			for _, e := range jobErrs {
+				fmt.Println(e)
+			}
+			return 2
+		}
+		fmt.Printf("HARNESS-NOTE: %d worker processes hung or died (first: %s); the VIOLATION lines below are for violations that replayed in a fresh process\n", len(jobErrs), clip(jobErrs[0], 400))
+	}
+	if len(harness) > 0 {
+		if exit != 1 {
+			fmt.Println("HARNESS: the simulator itself misbehaved (exit 2, nothing reported is to be believed):")
+			for i, h := range harness {
+				if i > 10 {
+					break
+				}
+				fmt.Println(" ", h)
+			}
+			return 2
+		}
+		fmt.Printf("HARNESS-NOTE: %d runs were not repeatable (first: %s); the VIOLATION lines below are for violations that replayed in a fresh process\n", len(harness), clip(harness[0], 300))
+	}
+	if len(inconclusive) > 0 {
+		if exit != 1 {
+			fmt.Println("HARNESS: a world could not read the program's output and no genuine violation replayed (exit 2, nothing reported is to be believed):")
+			for i, h := range inconclusive {
+				if i > 10 {
+					break
+				}
+				fmt.Println(" ", h)
+			}
+			return 2
+		}
+		fmt.Printf("HARNESS-NOTE: in %d runs a world could not read the program's output (first: %s); the VIOLATION lines below are for oracles that could\n", len(inconclusive), inconclusive[0])
+	}
 	wall := time.Since(t0).Seconds()
 	writeEvidence(prop, cfg, tier, seed, tc, b, main, det, race, nViol, wall, knownLines)
 	for _, l := range knownLines {
